@@ -22,7 +22,8 @@ type c01Variant struct {
 	Entry int  `json:"entry"`
 	Slack int  `json:"slack"`
 	Used  bool `json:"used"`
-	Trunc bool `json:"trunc"` // ReadFrom only: m.Raw one byte shorter than the datagram
+	Trunc bool `json:"trunc"`         // ReadFrom only: m.Raw one byte shorter than the datagram
+	New   bool `json:"new,omitempty"` // the Message comes from stun.New() and lives between two other Messages from stun.New()
 }
 
 type udpReader struct{ d []byte }
@@ -102,7 +103,15 @@ func c01Prime(m *stun.Message, entry int, prev []byte) {
 
 func c01Run1(in []byte, v c01Variant, wantMeasure bool) (sig uint64, ok bool, key, detail string) {
 	var m *stun.Message
-	if v.Used && c01Prev != nil {
+	var nb *msgNeighbours
+	defer func() {
+		if what := nb.changed(); what != "" && key == "" {
+			sig, ok, key, detail = 0, false, "neighbour-changed", fmt.Sprintf("%s of %d bytes into a Message from stun.New(): %s", c01EntryNames[v.Entry], len(in), what)
+		}
+	}()
+	if v.New {
+		m, nb = newBetweenNeighbours()
+	} else if v.Used && c01Prev != nil {
 		m = new(stun.Message)
 		c01Prime(m, v.Entry, c01Prev)
 	} else if v.Used {
@@ -127,7 +136,7 @@ func c01Run1(in []byte, v c01Variant, wantMeasure bool) (sig uint64, ok bool, ke
 		case 0:
 			if v.Slack != 64 {
 				m.Raw = make([]byte, 0, len(in)+v.Slack)
-			} else if !v.Used {
+			} else if !v.Used && !v.New {
 				m.Raw = nil
 			}
 			if wantMeasure {
@@ -176,7 +185,12 @@ func c01Run1(in []byte, v c01Variant, wantMeasure bool) (sig uint64, ok bool, ke
 				}
 				effective = in[:capv]
 			}
-			if v.Used && v.Slack == 64 && !v.Trunc && cap(m.Raw) >= len(in) {
+			if v.New {
+				// the storage stun.New() gave it: a longer datagram is cut to it, like any datagram read into a short buffer
+				if capv = cap(m.Raw); capv < len(in) {
+					effective = in[:capv]
+				}
+			} else if v.Used && v.Slack == 64 && !v.Trunc && cap(m.Raw) >= len(in) {
 				// the read loop of a client: the Message that held the previous (large, valid) datagram is read into again
 			} else {
 				m.Raw = make([]byte, capv/2, capv)
@@ -291,6 +305,9 @@ func c01Variants(wide bool) []c01Variant {
 		}
 	}
 	vs = append(vs, c01Variant{Entry: 5, Trunc: true}, c01Variant{Entry: 5, Trunc: true, Used: true})
+	for _, e := range []int{0, 2, 3, 4, 5, 6} {
+		vs = append(vs, c01Variant{Entry: e, Slack: 64, New: true})
+	}
 	return vs
 }
 
@@ -320,8 +337,8 @@ func c01Input(c *Ctx, in []byte, vs []c01Variant, wc *watchCase, measure bool) (
 			c.Violation(key, detail, c01Replay{Hex: hex.EncodeToString(in), Prev: hex.EncodeToString(c01Prev), Behind: hex.EncodeToString(c01Behind), V: v})
 			return false
 		}
-		if v.Trunc {
-			continue // a different effective input
+		if v.Trunc || (v.New && v.Entry == 5) {
+			continue // a different effective input (cut to the storage the Message has)
 		}
 		if !have {
 			refSig, refOK, refV, have = sig, ok, v, true
